@@ -34,7 +34,7 @@
                           before the cut;
    4. writer_chunk_events the events of a chunk of the trace are the tokens of the records the
                           writer put into it (all of them schema/channel/message records). *)
-From Mcap Require ConstsTie LayoutTie. (* regenerated ties to /repo's source that this property's model relies on *)
+From Mcap Require ConstsTie LayoutTie DecisionTieL. (* regenerated ties to /repo's source that this property's model relies on *)
 From Coq Require Import List NArith ZArith Bool.
 From Coq.Strings Require Import Byte.
 From Mcap Require Import Bytes GoSem Crc32 Records RecordsFacts Writer WriterFactsA WriterFactsB
